@@ -212,7 +212,31 @@ func (h *History) resolveArgs(r *Rng, sets [][]*Ev) []string {
 		setStrs = append(setStrs, joinIdx(is))
 	}
 	var authIdx []int
-	if gmsl.MustGetRoomVersion(gmsl.RoomVersion(h.G.Ver)).StateResAlgorithm() == gmsl.StateResV1 {
+	if v1 := gmsl.MustGetRoomVersion(gmsl.RoomVersion(h.G.Ver)).StateResAlgorithm() == gmsl.StateResV1; v1 && r.Chance(50) {
+		// the FULL auth closure of the state events, restricted to one event per state key (the latest by depth, then the
+		// smallest ID): auth events may now sit on conflicted keys. Since the fix of resolveAuthBlock (the supplied auth
+		// event of a slot is put back after the block) the result must not depend on the order of the blocks.
+		best := map[gmsl.StateKeyTuple]*Ev{}
+		for _, a := range h.AuthClosure(all) {
+			if a.PDU.StateKey() == nil {
+				continue
+			}
+			k := gmsl.StateKeyTuple{EventType: a.PDU.Type(), StateKey: *a.PDU.StateKey()}
+			if b, ok := best[k]; !ok || a.PDU.Depth() > b.PDU.Depth() || (a.PDU.Depth() == b.PDU.Depth() && a.ID < b.ID) {
+				best[k] = a
+			}
+		}
+		var keys []gmsl.StateKeyTuple
+		for k := range best {
+			keys = append(keys, k)
+		}
+		sort.Slice(keys, func(i, j int) bool {
+			return keys[i].EventType+"\x00"+keys[i].StateKey < keys[j].EventType+"\x00"+keys[j].StateKey
+		})
+		for _, k := range keys {
+			authIdx = append(authIdx, add(best[k]))
+		}
+	} else if v1 {
 		// the version-1 resolver documents its auth events as "the unconflicted auth events needed for
 		// auth checks": one per state key, taken from the keys on which the sets do not conflict
 		byKey := map[gmsl.StateKeyTuple]map[string]*Ev{}
